@@ -32,7 +32,7 @@ var (
 	EditGodebugKey = []string{"k1", "k2", "k3"}
 	EditGodebugVal = []string{"0", "1", "2"}
 	EditUseDirs    = []string{"./a", "./b", "../c", "./d e", "./f", "./g//h"}
-	EditGoVersions = []string{"1.9", "1.20", "1.21", "1.21.0", "1.22.1", "1.100"}
+	EditGoVersions = []string{"1.9", "1.20", "1.21", "1.21.0", "1.22.1", "1.100", "1.22rc1", "1.20rc2"}
 	EditToolchains = []string{"go1.21.0", "go1.22.1", "default"}
 	EditModules    = []string{"m.com/m", "n.com/n"}
 	// replacement targets: directories have no version
